@@ -11,7 +11,7 @@ from ..terms import C, ZERO, short, is_const, INF, atoms_of
 from .dispatch import analyse, OP, Summary
 from .c03 import own_mac_byte
 from .c06 import desc_byte
-from .frame_common import FrameSetup, run_regions, Snap, effects
+from .frame_common import FrameSetup, run_regions, Snap, effects, request_alloc
 from .automata_common import load_core
 
 
@@ -38,7 +38,7 @@ def run(tier):
         ops = st.dom(('in', 'frame', 17)).values()
         if not set(ops) <= {OP['probe'], OP['train']}:
             continue
-        allocs = [e for e, _ in effects(st, 'malloc') if str(e[1]).startswith('heap:parseProbe')]
+        allocs = [e for e, _ in effects(st, 'malloc') if request_alloc(e[1])]
         if not allocs:
             continue
         recorded += 1
@@ -59,7 +59,7 @@ def run(tier):
             rep.fail('R10.1', 'observer|unfiltered', 'a Probe/Train is recorded on a path that did not compare six header bytes with the own address (%s)' % offs,
                      function='parseProbe', file=fnf)
         # identity recorded: node field realSourceAddr origin
-        node = [oid for oid in st.objs if oid.startswith('heap:parseProbe')]
+        node = [oid for oid in st.objs if request_alloc(oid)]
         if node:
             o = st.objs[node[0]]
             prec = fs.prec
